@@ -10,7 +10,7 @@ from .. import AnalysisError
 from ..index import mangle
 from .common import R, seg
 
-NEED = ("generic",)
+NEED = ("generic", "exact")
 NS = "heavy.NodeSample."
 IA = "heavy.IntegratorArray."
 
@@ -433,10 +433,15 @@ def run(m, chk):
         "define them and asks both for the same size (PAIR); the literal seeds satisfy length / sum / symmetry / moment equations against closed forms coded in the checker (SEED); Integrate.* do not modify the curve "
         "and depend on all their inputs. Exactness order of the *computed* rules, the closed-form spline integral and polyline length are not decided."
     )
-    chk.decides = ["UFUNC-FLOAT (float-only numpy functions are applied to converted values: exact data do not raise TypeError)", "PRODUCT-SAME-NODES (curve and weight function are sampled at the same mapped nodes in Integrate.scalar)", "TRUNC-FLOAT (no integer obtained by truncating a float quotient is used on the path: the quadrature tables are built with exact binomials)", "D-VALUE (the integrators never divide by a value of the curve)", "END-EXACT (closed reference nodes are mapped onto a span with an expression that is exact at both ends)", "PURE-MEMO", "PAIR (family and size)", "SEED", "PURE", "DEP-MAY", 'MEMO-KEY (no value-keyed memoisation)', 'DEFAULT-OPEN (the default rule has no node at a span end)', 'JACOBIAN (span sums are multiplied by the span length)', 'PIECEWISE-EVAL (with a closed rule on offer, each span evaluates its own piece)', 'PRECOND-LB (sizes the library chooses satisfy the asserted minimum of every rule they can reach)']
+    chk.decides = ["E8 (with exact knots, points and the default rule no float introduced by the library reaches the value of Integrate.scalar / Integrate.function: the default for Fraction and int knots is an exact rule)", "UFUNC-FLOAT (float-only numpy functions are applied to converted values: exact data do not raise TypeError)", "PRODUCT-SAME-NODES (curve and weight function are sampled at the same mapped nodes in Integrate.scalar)", "TRUNC-FLOAT (no integer obtained by truncating a float quotient is used on the path: the quadrature tables are built with exact binomials)", "D-VALUE (the integrators never divide by a value of the curve)", "END-EXACT (closed reference nodes are mapped onto a span with an expression that is exact at both ends)", "PURE-MEMO", "PAIR (family and size)", "SEED", "PURE", "DEP-MAY", 'MEMO-KEY (no value-keyed memoisation)', 'DEFAULT-OPEN (the default rule has no node at a span end)', 'JACOBIAN (span sums are multiplied by the span length)', 'PIECEWISE-EVAL (with a closed rule on offer, each span evaluates its own piece)', 'PRECOND-LB (sizes the library chooses satisfy the asserted minimum of every rule they can reach)']
     chk.not_decided = ["exactness order of the computed rules for every n (Linalg.invert)", "Integrate.scalar equals the closed form", "polyline length"]
     chk.assume("numpy.polynomial.legendre.leggauss is deterministic")
     tabs, acc = pure_memo(r, chk)
+    # "exactly for rational data with the default rule": with exact input no float made by the library reaches the result
+    from .c16 import e8_sinks
+
+    nsink = e8_sinks(chk, m.exact(), ["calculus.Integrate.scalar", "calculus.Integrate.function"])
+    chk.floor("E8", "sinks of Integrate.scalar / Integrate.function under exact input", nsink, 2)
     from .extra import memo_key
 
     memo_key(r, chk)
